@@ -303,6 +303,9 @@ def _lookup_unit_symbol(symbol_str, unit_symbol_lut):
         # lookup successful, return the tuple directly
         return unit_symbol_lut[symbol_str]
 
+    if not symbol_str:
+        raise UnitParseError("Could not find unit symbol '' in the provided symbols.")
+
     # could still be a known symbol with a prefix
     prefix, symbol_wo_prefix = _split_prefix(symbol_str, unit_symbol_lut)
 
